@@ -65,6 +65,8 @@ REVERTS = [
     ('revert-F16-buffer-sliced-directly', ['C01', 'C03'], 'fastparquet/core.py',
      "        raw_bytes = np.frombuffer(decompress_data(raw_bytes, uncompressed_page_size, codec), dtype='uint8')\n",
      "        raw_bytes = decompress_data(raw_bytes, uncompressed_page_size, codec)\n"),
+    ('revert-F17-index-copies-its-buffer', ['C01', 'C06'], 'fastparquet/dataframe.py',
+     "                index = Index(d, dtype=dtype, copy=False)\n", "                index = Index(d)\n"),
 ]
 
 # functions whose twins are run per property (module, qualname)
